@@ -96,9 +96,11 @@ Step(e) ==
              ELSE errs' = Err(e, "C03", why) /\ skip' = TRUE /\ UNCHANGED <<meta, slots>>
     [] e.ev = "clear" ->
          IF e.panic THEN errs' = Err(e, "C08", "clear-panicked") /\ skip' = TRUE /\ UNCHANGED <<meta, slots>>
-         ELSE IF Shrunk(e.caps_before, e.caps_after)
-              THEN errs' = Err(e, "C18", "capacity-shrank-on-clear") /\ skip' = TRUE /\ UNCHANGED <<meta, slots>>
-              ELSE slots' = [slots EXCEPT ![e.s] = Fresh] /\ UNCHANGED <<meta, skip, errs>>
+         ELSE \* a shrunk capacity is reported, but it does not blur what the slot holds: the run goes on (a rejection
+              \* that belongs to one property must not hide what follows for another)
+              /\ errs' = IF Shrunk(e.caps_before, e.caps_after) THEN Err(e, "C18", "capacity-shrank-on-clear") ELSE errs
+              /\ slots' = [slots EXCEPT ![e.s] = Fresh]
+              /\ UNCHANGED <<meta, skip>>
     [] e.ev = "copy" ->
          LET prop == IF e.kind = "serde" THEN "C16" ELSE "C09"
          IN  IF e.panic THEN errs' = Err(e, prop, "copy-failed") /\ skip' = TRUE /\ UNCHANGED <<meta, slots>>
